@@ -362,3 +362,106 @@ def src_poly(src: str) -> Poly:
     return expr_poly(ast.parse(src, mode="eval").body)
 
 
+
+
+def renormalise(pl: Poly) -> Poly:
+    """re-canonicalise applications whose argument changed by substitution: int(q / d) and q // d share one form (as in KEval.to_int)"""
+    from .keval import KEval
+    def fix(at):
+        if at[0] == "f" and at[1] == "int" and len(at[2]) == 1 and isinstance(at[2][0], Poly):
+            r = KEval.to_int(None, renormalise(at[2][0]))
+            return r if isinstance(r, Poly) else None
+        return None
+    return pl.subst(fix)
+
+
+def forwarded_values(stores: List[Store], names: Iterable[str]):
+    """values of the stores into one array, in program order, with reads of that array forwarded from its own earlier stores:
+    after  A[k, c] = f(k)  for every k of a full loop, a later read  A[j, c]  (j the variable of an equally full loop, or the same iteration) is f(j).
+    Only unguarded stores at [loop variables..., constants...] are forwarded; anything else is left as the read atom.  Returns [(store, value)]."""
+    names = set(names)
+    table = {}   # (number of loop indices, constant suffix) -> (value, loop variable names, loop ranges)
+    out = []
+    for st in stores:
+        v = value_poly(st.value) if not isinstance(st.value, tuple) else st.value
+        lv = [l.var for l in st.loops]
+        if isinstance(v, Poly) and table:
+            def sub(at):
+                if at[0] == "i" and at[1] in names:
+                    idx = at[2]
+                    for (n_loop, suffix), (val, vars_, ranges) in table.items():
+                        if len(idx) == n_loop + len(suffix) and tuple(idx[n_loop:]) == suffix:
+                            heads = idx[:n_loop]
+                            if all(isinstance(h, Poly) and len(h.t) == 1 and h.is_monomial() for h in heads):
+                                ren = {}
+                                okh = True
+                                for h, old in zip(heads, vars_):
+                                    ats = [a for a in h.atoms()]
+                                    if len(ats) == 1 and ats[0][0] == "s" and h == Poly.sym(ats[0][1]):
+                                        ren[old] = ats[0][1]
+                                    else:
+                                        okh = False
+                                if okh:
+                                    return val.subst(lambda a2: Poly.sym(ren[a2[1]]) if (a2[0] == "s" and a2[1] in ren) else None)
+                return None
+            v2 = v.subst(sub)
+            if v2 != v:
+                v = renormalise(v2)
+        out.append((st, v))
+        # record this store for later reads
+        n_loop = len(lv)
+        if isinstance(v, Poly) and st.op == "=" and not real_guards(st.guards) and len(st.idx) >= n_loop and tuple(st.idx[:n_loop]) == tuple(Poly.sym(x) for x in lv) \
+                and all(isinstance(i, Poly) and i.is_const() for i in st.idx[n_loop:]):
+            table[(n_loop, tuple(st.idx[n_loop:]))] = (v, lv, [(l.lo, l.hi) for l in st.loops])
+    return out
+
+
+def cond_equiv(a: Cond, b: Cond, limit: int = 10) -> bool:
+    """propositional equivalence of two conditions over their atomic comparisons (each comparison, oriented, is one propositional variable; `not (x <= y)` and `y < x` are the same
+    literal).  Sufficient, not necessary: atoms are treated as independent."""
+    atoms: Dict[str, int] = {}
+
+    def lit(c: Cond):
+        """(atom key, positive?) for a leaf"""
+        n = norm_cond(c)
+        if n[0] == "cmp":
+            _, l, op, r = n
+            # one variable per unordered pair for ==/!=, per ordered pair for < / <=  ( l <= r  ==  not (r < l) )
+            if op == "==":
+                return (("eq", l, r), True)
+            if op == "!=":
+                return (("eq", l, r), False)
+            if op == "<":
+                return (("lt", l, r), True)
+            if op == "<=":
+                return (("lt", r, l), False)
+        return (("x", repr(n)), True)
+
+    def ev(c: Cond, env) -> bool:
+        if c.kind == "and":
+            return all(ev(x, env) for x in c.args)
+        if c.kind == "or":
+            return any(ev(x, env) for x in c.args)
+        if c.kind == "not" and c.args[0].kind in ("and", "or", "not"):
+            return not ev(c.args[0], env)
+        k, pos = lit(c)
+        return env[k] if pos else not env[k]
+
+    def collect(c: Cond):
+        if c.kind in ("and", "or"):
+            for x in c.args:
+                collect(x)
+        elif c.kind == "not" and c.args[0].kind in ("and", "or", "not"):
+            collect(c.args[0])
+        else:
+            atoms.setdefault(lit(c)[0], len(atoms))
+    collect(a)
+    collect(b)
+    keys = list(atoms)
+    if len(keys) > limit:
+        return False
+    for m in range(1 << len(keys)):
+        env = {k: bool((m >> i) & 1) for i, k in enumerate(keys)}
+        if ev(a, env) != ev(b, env):
+            return False
+    return True
